@@ -1,6 +1,6 @@
 SPECIFICATION Spec
 CONSTANTS
-  Deltas = {-9, -4, -3, -2, -1, 1, 2, 3, 4, 7, 16, 255}
+  Deltas <- DeltasThorough
   Pairwise = FALSE
   MaxLabel = 63
   MaxName = 255
